@@ -31,14 +31,16 @@ Judge(r) ==
                  /\ (issvc \/ t.st = "run")
                  /\ (~issvc => InCommon(t.pc) /\ (opc = 5 => InCommon(t.a)))
       wrote == opc \in {2, 8}
-  IN IF ~rtlok THEN "rtl"
-     ELSE IF ~inrange THEN "outside"
-     ELSE IF issvc THEN (IF r.out[6] = 1 /\ r.out[7] = r.pre[2] % 4 /\ r.post = <<r.pre[1] + 1, r.pre[2], r.pre[3], 0>> THEN "ok" ELSE "isa-svc")
-     ELSE IF r.out[6] # 0 THEN "isa-spurious-svc"
-     ELSE IF <<t.pc, t.a, t.b, t.o>> # r.post THEN "isa-registers"
-     ELSE IF wrote /\ ~(r.out[2] = 1 /\ r.out[3] = 1 /\ r.out[4] = ip.ea /\ r.out[5] = r.pre[2]) THEN "isa-store"
-     ELSE IF ~wrote /\ r.out[3] # 0 THEN "isa-spurious-store"
-     ELSE IF opc \in {0, 1, 6, 7} /\ ~(r.out[2] = 1 /\ r.out[4] = ip.ea) THEN "isa-load-address"
-     ELSE "ok"
-
+      isa == IF ~inrange THEN "outside"
+             ELSE IF issvc THEN (IF r.out[6] = 1 /\ r.out[7] = r.pre[2] % 4 /\ r.post = <<r.pre[1] + 1, r.pre[2], r.pre[3], 0>> THEN "ok" ELSE "isa-svc")
+             ELSE IF r.out[6] # 0 THEN "isa-spurious-svc"
+             ELSE IF <<t.pc, t.a, t.b, t.o>> # r.post THEN "isa-registers"
+             ELSE IF wrote /\ ~(r.out[2] = 1 /\ r.out[3] = 1 /\ r.out[4] = ip.ea /\ r.out[5] = r.pre[2]) THEN "isa-store"
+             ELSE IF ~wrote /\ r.out[3] # 0 THEN "isa-spurious-store"
+             ELSE IF opc \in {0, 1, 6, 7} /\ ~(r.out[2] = 1 /\ r.out[4] = ip.ea) THEN "isa-load-address"
+             ELSE "ok"
+  \* the ISA judgement (outcome grade) takes precedence; a clock that only differs from HexRTL is mechanism drift
+  IN IF isa \notin {"ok", "outside"} THEN isa
+     ELSE IF ~rtlok THEN "rtl"
+     ELSE isa
 =============================================================================
